@@ -49,3 +49,35 @@ ENTRIES = [
     N('guarded-index', "            if len(fields) < 4:\n                raise ListingError(\n                    'Failed to parse line {}'.format(repr(line)))\n", "            if len(fields) != 4 and len(fields) < 4:\n                raise ListingError(\n                    'Failed to parse line {}'.format(repr(line)))\n" if False else "            if len(fields) < 4:\n                raise ListingError('Failed to parse line {!r}'.format(line))\n", LS),
     N('protocol-subclass', "                    raise ProtocolError('Reply has more than one final line.')", "                    raise FTPServerError('Reply has more than one final line.', 500)" if False else "                    raise ProtocolError('More than one final line in reply.')", FR),
 ]
+
+# ---- defects found in the fourth review round (scrapers, writer, PASV) and their neighbours
+STR = 'wpull/string.py'
+SM = 'wpull/scraper/sitemap.py'
+WR = 'wpull/writer.py'
+FU = 'wpull/protocol/ftp/util.py'
+CSS = 'wpull/scraper/css.py'
+JS = 'wpull/scraper/javascript.py'
+HT = 'wpull/scraper/html.py'
+CK = 'wpull/cookie.py'
+ENTRIES += [
+    B('regress-codec-lookup', "    except LookupError:\n        # A registered codec that is not a text encoding (hex, zlib, ...)\n        return False\n", "", 'C09-D1', STR),
+    B('regress-sitemap-gzip', "        except (UnicodeError, EOFError, OSError, zlib.error,\n                self._html_parser.parser_error) as error:", "        except (UnicodeError, self._html_parser.parser_error) as error:", 'C09-D1', SM),
+    B('sitemap-gzip-eof-only', "        except (UnicodeError, EOFError, OSError, zlib.error,\n                self._html_parser.parser_error) as error:", "        except (UnicodeError, EOFError, zlib.error,\n                self._html_parser.parser_error) as error:", 'C09-D1', SM),
+    B('regress-last-modified-none', "        if not last_modified:\n            # parsedate() returns None for text that is not a date\n            return\n\n", "", 'C09-D1', WR),
+    B('regress-last-modified-range', "        try:\n            last_modified = time.mktime(last_modified)\n        except (OverflowError, ValueError):\n            _logger.exception('Failed to convert date.')\n            return\n", "        last_modified = time.mktime(last_modified)\n", 'C09-D1', WR),
+    B('regress-pasv-range', "        if any(int(number) > 255 for number in match.groups()):\n            raise ValueError('Address out of range')\n\n", "", 'C09-D7', FU),
+    B('pasv-range-port-only', "        if any(int(number) > 255 for number in match.groups()):", "        if int(match.group(1)) > 255 or int(match.group(2)) > 255:", 'C09-D7', FU),
+    B('pasv-range-check-after-return-value', "        if any(int(number) > 255 for number in match.groups()):\n            raise ValueError('Address out of range')\n\n", "        if any(int(number) > 999 for number in match.groups()):\n            raise ValueError('Address out of range')\n\n", 'C09-D7', FU),
+    B('css-handler-narrowed', "        except UnicodeError as error:", "        except UnicodeDecodeError as error:", 'C09-D1', CSS),
+    B('js-handler-narrowed', "        except UnicodeError as error:", "        except UnicodeDecodeError as error:", 'C09-D1', JS),
+    B('scraper-unvalidated-charset', "        encoding = self._encoding_override or \\\n            detect_response_encoding(response)\n", "        encoding = self._encoding_override or \\\n            get_heading_encoding(response) or detect_response_encoding(response)\n", 'C09-D1', CSS),
+    B('cookie-limit-lookup-unguarded', "            try:\n                cookies[cookie.domain][cookie.path][cookie.name]\n            except KeyError:\n                return False", "            if cookie.name not in cookies[cookie.domain][cookie.path]:\n                return False", 'C09-D1', CK),
+    B('unix-perm-length-guard-weakened', "    if len(text) != 9:\n        return 0", "    if len(text) > 10:\n        return 0", 'C09-D1', LS),
+    N('pasv-range-max-form', "        if any(int(number) > 255 for number in match.groups()):", "        if max(int(number) for number in match.groups()) >= 256:", FU),
+    N('pasv-range-numbers-local', "        if any(int(number) > 255 for number in match.groups()):\n            raise ValueError('Address out of range')\n", "        numbers = [int(number) for number in match.groups()]\n\n        if max(numbers) > 255:\n            raise ValueError('Address out of range')\n", FU),
+    N('last-modified-single-try', "        if not last_modified:\n            # parsedate() returns None for text that is not a date\n            return\n\n        try:\n            last_modified = time.mktime(last_modified)\n        except (OverflowError, ValueError):",
+      "        if last_modified is None:\n            return\n\n        try:\n            last_modified = time.mktime(last_modified)\n        except (OverflowError, ValueError, TypeError):", WR),
+    N('sitemap-handler-exception-order', "        except (UnicodeError, EOFError, OSError, zlib.error,\n                self._html_parser.parser_error) as error:", "        except (OSError, EOFError, zlib.error, UnicodeError,\n                self._html_parser.parser_error) as error:", SM),
+    N('codec-lookup-combined-handler', "    except LookupError:\n        # A registered codec that is not a text encoding (hex, zlib, ...)\n        return False\n    except UnicodeError:", "    except LookupError as error:\n        _ = error\n        return False\n    except UnicodeError:", STR),
+    N('unix-perm-length-guard-lt', "    if len(text) != 9:\n        return 0", "    if len(text) < 9 or len(text) > 9:\n        return 0", LS),
+]
